@@ -94,6 +94,11 @@ CHECKS = {
          '(winding number at cell centres, closed 2-manifold with every vertex referenced, exact vertex retention, point-to-surface distance, n^2 count, tolerance floor).',
          'driver classifies barycentric points in double precision; with tangents only retention/manifoldness/finiteness are decided; F8 signature masks its class',
          'explicit TLA+ spec, TLC exhaustive enumeration, driver replay, TLC trace validation', '5 C19'),
+ 'C20': ('model_checking', 'CApi.tla: an operational life-cycle model of C objects (protocol automaton vs memory model: no double destruct, no use after destruct, construction only into raw storage '
+         'of the right size, no leak, protocol tightness), every invariant demanded to fail without the guards; every complete legal program TLC prints is executed on the real C functions for all 13 handle '
+         'types under ASan/UBSan/LSan, and every exported function (298/298 measured from the header) is executed call for call through C and C++ with TLC-chosen arguments and compared field by field.',
+         'the C++ API is the oracle of faithfulness; hand-written mirror table drive/capi_table.inc; sanitizers, guard bytes and canaries as memory-safety witnesses',
+         'TLA+/TLC model plus generation, replayed by the C++ driver', '5 C20'),
 }
 NA = {}
 
